@@ -366,7 +366,36 @@ func wgMsg(n int, typ byte, reserved byte) []byte {
 	return b
 }
 
+func pgMsg(code uint32, body []byte) []byte {
+	l := uint32(8 + len(body))
+	out := []byte{byte(l >> 24), byte(l >> 16), byte(l >> 8), byte(l), byte(code >> 24), byte(code >> 16), byte(code >> 8), byte(code)}
+	return append(out, body...)
+}
+
 var msgMatchers = []msgMatcher{
+	{
+		fn: "modules/l4postgres.(*MatchPostgres).Match", cfgName: "postgres",
+		cases: []msgCase{
+			{"SSLRequest", pgMsg(80877103, nil), "yes"},
+			{"startup 3.0 with user", pgMsg(3<<16, []byte("user\x00alice\x00\x00")), "yes"},
+			{"startup 3.0 with user and database", pgMsg(3<<16, []byte("user\x00alice\x00database\x00shop\x00\x00")), "yes"},
+			{"startup 3.2", pgMsg(3<<16|2, []byte("user\x00u\x00\x00")), "yes"},
+			{"startup 3.0 without parameters", pgMsg(3<<16, []byte{0}), "no"},
+			{"startup 3.0, nothing after the version", pgMsg(3<<16, nil), "no"},
+			{"protocol 2.0", pgMsg(2<<16, []byte("user\x00alice\x00\x00")), "error"},
+			{"SSLRequest code minus one", pgMsg(80877102, nil), "no"},
+			{"declared length 7", []byte{0, 0, 0, 7, 0, 3, 0, 0}, "no"},
+			{"declared length 0", []byte{0, 0, 0, 0, 0, 3, 0, 0}, "no"},
+			{"declared length above the matching limit", []byte{0, 1, 0, 0, 0, 3, 0, 0}, "no"},
+			{"startup 3.0 with a one-letter parameter", pgMsg(3<<16, []byte("u\x00v\x00\x00")), "yes"},
+			{"declared length exactly the matching limit, body not there yet", []byte{0, 0, 0x20, 0, 0, 3, 0, 0}, "more"},
+			{"length only", []byte{0, 0, 0, 8}, "more"},
+			{"two bytes", []byte{0, 0}, "more"},
+			{"startup cut inside the parameters", pgMsg(3<<16, []byte("user\x00alice\x00\x00"))[:14], "more"},
+			{"http", []byte("GET / HTTP/1.1\r\n\r\n"), "no"},
+		},
+		source: "PostgreSQL frontend/backend protocol, message formats: Int32 length (including itself), then SSLRequest (code 80877103) or StartupMessage (Int32 protocol version, major >= 3, followed by name/value strings and a terminating zero byte)",
+	},
 	{
 		fn: "modules/l4wireguard.(*MatchWireGuard).Match", cfgName: "wireguard zero=0",
 		heap: func(h map[string]SV) { h["m.Zero"] = symInt(0) },
@@ -540,7 +569,7 @@ func c14TablesFor(c *Ctx, r *Report, rule, only string) {
 				}
 			}
 			got = dedup(got)
-			ok := len(got) == 1 && got[0] == mc.want
+			ok := len(got) == 1 && (got[0] == mc.want || mc.want == "error" && strings.HasPrefix(got[0], "error "))
 			r.check(ok, rule, mm.fn, k, c.pos(fn.Pos()), fmt.Sprintf("%q -> %s (%d path(s))", abbreviate(mc.msg), mc.want, len(paths)), fmt.Sprintf("the matcher answers %v for the message %q, the reference says %s - %s", got, abbreviate(mc.msg), mc.want, mm.source))
 		}
 	}
